@@ -215,6 +215,42 @@ func generator(c *hx.Ctx, h *hist, cfg genCfg) opGen {
 	}
 }
 
+// multiGenerator interleaves operations over up to maxWallets wallets open in one process: now and
+// then it opens one more wallet file with parameters from the pool (preferring a set no open wallet
+// has), otherwise it picks an open wallet and lets the single-wallet generator choose the operation.
+func multiGenerator(c *hx.Ctx, h *hist, cfg genCfg, maxWallets int, pool [][4]int) opGen {
+	inner := generator(c, h, cfg)
+	return func(r *runner, i int) *opRec {
+		if i >= cfg.nOps {
+			return nil
+		}
+		if len(r.ws) < maxWallets && (i == 1 || c.Intn(5) == 0) {
+			p := pool[c.Intn(len(pool))]
+			for try := 0; try < 8; try++ {
+				used := false
+				for _, w := range r.ws {
+					if prmArr(w.prm) == p {
+						used = true
+					}
+				}
+				if !used || c.Intn(8) == 0 {
+					break
+				}
+				p = pool[c.Intn(len(pool))]
+			}
+			return &opRec{Kind: "open", Slot: -1, Prm: &p}
+		}
+		wi := c.Intn(len(r.ws))
+		r.use(wi)
+		o := inner(r, i)
+		if o == nil {
+			return nil
+		}
+		o.W = wi
+		return o
+	}
+}
+
 func randKeyTypes(c *hx.Ctx, n int) []int {
 	var kt []int
 	for i := 0; i < n; i++ {
@@ -230,7 +266,18 @@ func regressions() []hist {
 	imp := func(slot int, label string, isdef bool) opRec {
 		return opRec{Kind: "import", Slot: slot, Label: label, Sch: 1, Pwd: "pw", IsDef: isdef, Hash: "sha256"}
 	}
+	def := prmArr(*keypair.GetScryptParameters())
+	low := [4]int{4096, 8, 8, 64} // account.lowSecurityParam (`account export --low-security`)
 	return []hist{
+		// wallet A (default parameters, one account) is open; a wallet file with other parameters is
+		// opened; A saves; A is re-opened: A's accounts must still open, A's file must keep its parameters
+		{Stream: "regression:two-wallets", Prm: def, Multi: true, MaxPwd: 2, KeyTyp: []int{0}, Ops: []opRec{
+			imp(0, "A", false), {Kind: "open", Slot: -1, Prm: &low}, {Kind: "setlabel", W: 0, Slot: 0, Label: "renamed"},
+			{Kind: "reload", W: 0, Slot: -1}, {Kind: "new", W: 1, Slot: -1, Label: "b", Sch: 1, Pwd: "pw2"}}},
+		{Stream: "regression:two-wallets", Prm: light, Multi: true, KeyTyp: []int{0, 0}, Ops: []opRec{
+			imp(0, "A", false), {Kind: "open", Slot: -1, Prm: &[4]int{4, 1, 1, 64}}, {Kind: "import", W: 1, Slot: 0, Label: "A", Sch: 1, Pwd: "other"},
+			{Kind: "chpwd", W: 0, Slot: 0, Pwd: "pw", New: "pw9"}, {Kind: "open", Slot: -1, Prm: &[4]int{16, 2, 1, 32}},
+			{Kind: "import", W: 2, Slot: 1, Label: "", Sch: 1, Pwd: "pw"}, {Kind: "reload", W: 1, Slot: -1}, {Kind: "setdefault", W: 0, Slot: 0}}},
 		{Stream: "regression:flagged-import", Prm: light, KeyTyp: []int{0, 0, 0, 0}, Ops: []opRec{
 			imp(0, "A", false), imp(1, "B", false), imp(2, "X", true), imp(3, "Y", true), {Kind: "setdefault", Slot: 1},
 			{Kind: "delete", Slot: 0, Pwd: "pw"}}},
@@ -247,16 +294,19 @@ func Run(c *hx.Ctx) {
 		runHist(c, rh, seq, nil)
 		return
 	}
+	// the fixed multi-wallet histories run first: a defect that leaks state from one client to another
+	// (process-wide) must first show up inside a history that is self-contained, so that its replay
+	// file reproduces it in a fresh process
+	for _, h := range regressions() {
+		seq++
+		runHist(c, h, seq, nil)
+	}
 	for _, raw := range c.CorpusInputs() {
 		var h hist
 		if json.Unmarshal(raw, &h) == nil && len(h.Ops) > 0 {
 			seq++
 			runHist(c, h, seq, nil)
 		}
-	}
-	for _, h := range regressions() {
-		seq++
-		runHist(c, h, seq, nil)
 	}
 	def := prmArr(*keypair.GetScryptParameters())
 	// time budget: if key derivation became slow everywhere (e.g. getAccount no longer uses the wallet's
@@ -271,7 +321,7 @@ func Run(c *hx.Ctx) {
 		return false
 	}
 	// main stream: wallets with light scrypt parameters, histories outside the finding classes
-	for i := 0; i < c.N(110, 1500) && !over("light"); i++ {
+	for i := 0; i < c.N(90, 1500) && !over("light"); i++ {
 		h := hist{Stream: "light", Prm: lightParams[c.Intn(len(lightParams))], KeyTyp: randKeyTypes(c, 2+c.Intn(3))}
 		seq++
 		runHist(c, h, seq, generator(c, &h, genCfg{nOps: 3 + c.Intn(14), allowNew: i%3 == 0, newWeight: 10}))
@@ -293,6 +343,25 @@ func Run(c *hx.Ctx) {
 		}
 		seq++
 		runHist(c, h, seq, generator(c, &h, cfg))
+	}
+	// several wallets open in one process, each with its own scrypt parameters, operations interleaved
+	low := [4]int{4096, 8, 8, 64}
+	for i := 0; i < c.N(16, 200) && !over("multi"); i++ {
+		h := hist{Stream: "multi", Multi: true, Prm: lightParams[c.Intn(len(lightParams))], KeyTyp: randKeyTypes(c, 2+c.Intn(2))}
+		pool := append([][4]int{{8, 1, 1, 64}, {32, 1, 1, 40}}, lightParams...)
+		cfg := genCfg{nOps: 8 + c.Intn(10), allowNew: true, newWeight: 10, allowDup: i%3 == 0, allowEmpty: i%3 == 0}
+		if i%4 == 3 { // one wallet with slow key derivation (default or low-security parameters)
+			h.Stream, h.MaxPwd = "multi-slow", 2
+			slow := [][4]int{def, low}[c.Intn(2)]
+			if c.Intn(2) == 0 {
+				h.Prm = slow
+			} else {
+				pool = [][4]int{slow}
+			}
+			cfg.nOps = 6 + c.Intn(3)
+		}
+		seq++
+		runHist(c, h, seq, multiGenerator(c, &h, cfg, 2+c.Intn(2), pool))
 	}
 	// histories in which the caller breaks an obligation on imports (foreign parameters, empty password)
 	for i := 0; i < c.N(10, 80) && !over("caller-bad"); i++ {
